@@ -1710,7 +1710,7 @@ THEOREMS = {
     "C04": ["Iauthd.Properties.C04_stray_tag", "Iauthd.Properties.C04_not_awaited", "Iauthd.Properties.C04_tag_exact",
             "Iauthd.Properties.C04_others", "Iauthd.Proto.parseTag_range", "Iauthd.Proto.validateRequest_serial", "Iauthd.Proto.parseTag_routing",
             "Iauthd.Properties.C04_tag_readback", "Iauthd.Properties.C04_tag_injective",
-            "Iauthd.Properties.C04_slots_alive", "Iauthd.Properties.C04_reload_slots", "Iauthd.Proto.runOps_refd",
+            "Iauthd.Properties.C04_slots_alive", "Iauthd.Properties.C04_reload_slots", "Iauthd.Properties.C04_tag_readers_agree", "Iauthd.Proto.runOps_refd",
             "Iauthd.Proto.applyConfig_ref", "Iauthd.Proto.xqReply_ref", "Iauthd.Proto.reqEvent_ref"],
     "C05": ["Iauthd.Properties.C05_refusal", "Iauthd.Properties.C05_vouch", "Iauthd.Properties.C05_stamp_shape",
             "Iauthd.Properties.C05_blank_is_plain", "Iauthd.Properties.C05_dronecheck_no_stamp", "Iauthd.Proto.okStamp_some"],
